@@ -18,7 +18,7 @@ type rconfig struct {
 	Size   int    `json:"size"`
 	RTX    bool   `json:"rtx"`
 	Writes int    `json:"concurrent_writes"`
-	Third  string `json:"third_thread"` // "", "unbind", "close", "nack2"
+	Third  string `json:"third_thread"` // "", "unbind", "close", "nack2", "compound" (no third thread: the reader reads two compounds of two NACK packets)
 	Bound  int    `json:"deviation_bound"`
 }
 
@@ -77,8 +77,19 @@ func rbody(c rconfig, ctx *hk.Ctx) {
 		}
 	})
 	nacker := vsched.GoApp("rtcp-reader", func() {
-		s.feed.next = nackFor(ssrcMain, reqs)
 		buf := make([]byte, 1500)
+		if c.Third == "compound" {
+			// two reads on the same reader, each a compound of two NACK packets: the second read arrives while
+			// the requests of the first may still be under way
+			for _, comp := range [][][]uint16{{{uint16(v0)}, {uint16(v0 + 1)}}, {{uint16(v0 + 7)}, {uint16(v0)}}} {
+				s.feed.next = append(nackFor(ssrcMain, comp[0]), nackFor(ssrcMain, comp[1])...)
+				if _, _, err := s.rd.Read(buf, nil); err != nil {
+					ctx.Fail("C04:read-error", "%v", err)
+				}
+			}
+			return
+		}
+		s.feed.next = nackFor(ssrcMain, reqs)
 		if _, _, err := s.rd.Read(buf, nil); err != nil {
 			ctx.Fail("C04:read-error", "%v", err)
 		}
@@ -125,6 +136,9 @@ func rbody(c rconfig, ctx *hk.Ctx) {
 	if c.Third == "nack2" {
 		allowed[uint16(v0+1)] = 2
 	}
+	if c.Third == "compound" {
+		allowed[uint16(v0)] = 2
+	}
 	count := map[uint16]int{}
 	for _, g := range sink.back {
 		q := origSeq(cfg, &g)
@@ -155,7 +169,7 @@ func rbody(c rconfig, ctx *hk.Ctx) {
 		}
 	}
 	// a request for a packet that stays inside the window for the whole run must be answered
-	if c.Third == "" || c.Third == "nack2" {
+	if c.Third == "" || c.Third == "nack2" || c.Third == "compound" {
 		if int64(c.Size) >= int64(c.Writes)+2 {
 			for q, n := range allowed {
 				if count[q] != n {
@@ -176,7 +190,10 @@ func rconfigs(tier string) []rconfig {
 	}
 	for _, size := range []int{1, 2, 4} {
 		for _, rtx := range []bool{false, true} {
-			for _, third := range []string{"", "unbind", "close", "nack2"} {
+			for _, third := range []string{"", "unbind", "close", "nack2", "compound"} {
+				if third == "compound" && size == 1 {
+					continue
+				}
 				w := 2
 				if size == 4 {
 					w = 2 // packets stay in the window: exactly-once is demanded
